@@ -184,7 +184,13 @@ impl Accept {
                 Some(WakerInterest::WorkerAvailable(idx)) => {
                     drop(guard);
 
-                    self.avail.set_available(idx, true);
+                    // The notification can outlive the worker's handle: a faulted worker is
+                    // removed from `handles` while its remaining connections still release their
+                    // guards. Marking an index without a handle as available would make
+                    // `accept_one` search forever (or index an empty `handles`).
+                    if self.handles.iter().any(|handle| handle.idx() == idx) {
+                        self.avail.set_available(idx, true);
+                    }
 
                     if !self.paused {
                         self.accept_all(sockets);
